@@ -318,6 +318,17 @@ class Evaluator:
             self.events = []
             self._pending: List[List[bool]] = []
             env = Env(self._bind_entry(fi, make_args(), body), None, fi.module)
+            if body is None and hasattr(fi.node, "args"):
+                # parameters the harness leaves out take the default the source gives them
+                a_ = fi.node.args
+                pos_ = a_.posonlyargs + a_.args
+                for prm, dflt in list(zip(pos_[len(pos_) - len(a_.defaults):], a_.defaults)) + [(x, d) for x, d in zip(a_.kwonlyargs, a_.kw_defaults) if d is not None]:
+                    if prm.arg not in env.vars:
+                        env.vars[prm.arg] = self.ev(dflt, Env({}, None, fi.module), fi)
+                if a_.vararg is not None and a_.vararg.arg not in env.vars:
+                    env.vars[a_.vararg.arg] = ()
+                if a_.kwarg is not None and a_.kwarg.arg not in env.vars:
+                    env.vars[a_.kwarg.arg] = {}
             try:
                 try:
                     stmts = body if body is not None else fi.node.body
@@ -521,7 +532,20 @@ class Evaluator:
         elif isinstance(st, ast.Import):
             for al in st.names:
                 env.set(al.asname or al.name.split(".")[0], ExtRef(al.name if al.asname else al.name.split(".")[0]))
-        elif isinstance(st, (ast.Pass, ast.Global, ast.Nonlocal, ast.Assert, ast.ClassDef)):
+        elif isinstance(st, ast.Assert):
+            # an assertion the abstract values decide to be false raises; an undecided one is an assumption of the code
+            try:
+                v = self.ev(st.test, env, fi)
+            except Unmodelled:
+                v = TOP
+            if not (v is TOP or isinstance(v, (Obj, BoundMethod))):
+                if isinstance(v, Lin):
+                    sg = self.sign(v)
+                    if sg == "zero":
+                        raise Raised("AssertionError", st)
+                elif not v:
+                    raise Raised("AssertionError", st)
+        elif isinstance(st, (ast.Pass, ast.Global, ast.Nonlocal, ast.ClassDef)):
             pass
         elif isinstance(st, ast.Break):
             raise _Break()
@@ -844,7 +868,10 @@ class Evaluator:
         if isinstance(base, ClassRef):
             q = f"{base.q}.{attr}"
             if q in self.P.functions:
-                return FuncV(self.P.functions[q], self.P.functions[q].node, None, base.q.split(":")[0])
+                fv = FuncV(self.P.functions[q], self.P.functions[q].node, None, base.q.split(":")[0])
+                if any(isinstance(d, ast.Name) and d.id == "classmethod" for d in fv.node.decorator_list):
+                    return PartialV("classmethod", fv, [base])
+                return fv
             cls = self.P.classes.get(base.q)
             if cls is not None:
                 for st in cls.body:
@@ -1075,6 +1102,8 @@ class Evaluator:
             same = l is r or (_hashable(l) and _hashable(r) and l == r and type(l) == type(r))
             return same if isinstance(op, ast.Is) else not same
         if isinstance(op, (ast.Eq, ast.NotEq)):
+            if isinstance(l, BoundMethod) or isinstance(r, BoundMethod):
+                return TOP  # an attribute of an opaque object that no model describes
             if l is TOP or r is TOP or isinstance(l, Obj) or isinstance(r, Obj):
                 if (l is None) != (r is None) and (l is None or r is None) and not (l is TOP or r is TOP):
                     return isinstance(op, ast.NotEq)
@@ -1292,6 +1321,7 @@ class Evaluator:
             name = f.fi.q if f.fi else f.name
             m = self.models.get(name) or (self.models.get(name.split(":")[-1]) if f.fi else None)
             if m is not None:
+                self._check_binding(f.node, args, kwargs, node)
                 return m(self, args, kwargs, node)
             return self.call_function(f, args, kwargs, node)
         if isinstance(f, BoundMethod):
@@ -1403,6 +1433,9 @@ class Evaluator:
         if isinstance(f, ClassRef):
             m = self.models.get(f.q)
             if m is not None:
+                init0 = self.P.functions.get(f.q + ".__init__")
+                if init0 is not None:
+                    self._check_binding(init0.node, [None] + list(args), kwargs, node)
                 return m(self, args, kwargs, node)
             if f.q.startswith("builtins:"):
                 return Obj("exception", f.q)
@@ -1414,6 +1447,14 @@ class Evaluator:
         if f is TOP:
             return TOP
         if isinstance(f, PartialV):
+            if f.kind == "classmethod":
+                fv = f.f
+                name = fv.fi.q
+                m = self.models.get(name) or self.models.get(name.split(":")[-1])
+                if m is not None:  # models of class methods take the arguments without the class
+                    self._check_binding(fv.node, f.args + list(args), kwargs, node)
+                    return m(self, list(args), kwargs, node)
+                return self.call_function(fv, f.args + list(args), kwargs, node)
             if f.kind == "partial":
                 kw2 = dict(f.kwargs)
                 kw2.update(kwargs)
@@ -1429,6 +1470,42 @@ class Evaluator:
                 return self.call_method(f, "__call__", args, kwargs, node)
             return f.with_eff(("call", tuple(args), tuple(kwargs.items())))
         raise Unmodelled(f"call of {f!r}", node)
+
+    def _check_binding(self, fn, args, kwargs, node):
+        """A call that is answered by a model must still bind to the real signature: a dropped or misspelled argument
+        is the TypeError Python raises, not something the model papers over."""
+        a = getattr(fn, "args", None)
+        if a is None:
+            return
+        pos = [x.arg for x in a.posonlyargs + a.args]
+        n_default = len(a.defaults)
+        required = pos[: len(pos) - n_default] if n_default else list(pos)
+        for d in getattr(fn, "decorator_list", []):
+            # numba.guvectorize(types, "(n),(n)->(m)"): the output arrays are allocated by the wrapper, callers omit them
+            if isinstance(d, ast.Call) and (getattr(d.func, "id", None) == "guvectorize" or getattr(d.func, "attr", None) == "guvectorize"):
+                layout = d.args[1].value if len(d.args) > 1 and isinstance(d.args[1], ast.Constant) and isinstance(d.args[1].value, str) else None
+                if layout is None or "->" not in layout:
+                    return
+                n_out = layout.split("->")[1].count("(")
+                required = required[: max(0, len(required) - n_out)]
+        kwonly = [x.arg for x in a.kwonlyargs]
+        kw_required = [x.arg for x, d in zip(a.kwonlyargs, a.kw_defaults) if d is None]
+        unknown_kw = "**" in kwargs
+        if len(args) > len(pos) and a.vararg is None:
+            raise Raised("TypeError", node, f"{getattr(fn, 'name', '?')}() takes {len(pos)} positional arguments but {len(args)} were given")
+        bound = set(pos[: len(args)])
+        for k in kwargs:
+            if k == "**":
+                continue
+            if k in bound and k not in [x.arg for x in a.posonlyargs]:
+                raise Raised("TypeError", node, f"{getattr(fn, 'name', '?')}() got multiple values for argument '{k}'")
+            if k not in pos and k not in kwonly and a.kwarg is None:
+                raise Raised("TypeError", node, f"{getattr(fn, 'name', '?')}() got an unexpected keyword argument '{k}'")
+            bound.add(k)
+        if not unknown_kw:
+            missing = [p for p in required + kw_required if p not in bound]
+            if missing:
+                raise Raised("TypeError", node, f"{getattr(fn, 'name', '?')}() missing required argument(s) {missing}")
 
     def call_function(self, f: FuncV, args, kwargs, node):
         if self._depth >= self.MAX_DEPTH:
@@ -1512,7 +1589,8 @@ class Evaluator:
                 bound = [] if "staticmethod" in decos else ([ClassRef(cq)] if "classmethod" in decos else [recv])
                 mm = self.models.get(fi2.q)
                 if mm is not None:
-                    return mm(self, bound + args, kwargs, node)
+                    self._check_binding(fi2.node, bound + args, kwargs, node)
+                    return mm(self, (bound if "classmethod" not in decos else []) + args, kwargs, node)
                 return self.call_function(FuncV(fi2, fi2.node, None, fi2.module), bound + args, kwargs, node)
             return recv.with_eff((name, tuple(args), tuple(sorted(kwargs.items(), key=lambda kv: str(kv[0])))))
         if recv is TOP:
@@ -1711,8 +1789,15 @@ class Evaluator:
                 return SliceV(None, a[0], None)
             return SliceV(a[0], a[1], a[2])
         if name == "range":
-            if all(isinstance(a, int) for a in args):
-                return range(*args)
+            if all(isinstance(a, int) and not isinstance(a, bool) for a in args):
+                try:
+                    return range(*args)
+                except ValueError:
+                    raise Raised("ValueError", node, "range() arg 3 must not be zero")
+                except TypeError:
+                    raise Raised("TypeError", node)
+            if any(isinstance(a, (list, tuple, dict, set, str, float)) or a is None for a in args):
+                raise Raised("TypeError", node, "range() argument cannot be interpreted as an integer")
             return TOP
         if name == "zip":
             seqs = []
